@@ -69,7 +69,8 @@ impl<T: Sync + Send + 'static> Worker<T> {
             .num_threads(worker_threads)
             .build()
             .expect("creating threadpool failed");
-        let matchers = (0..worker_threads)
+        // one matcher per thread the pool actually has (`num_threads(0)` lets rayon decide)
+        let matchers = (0..pool.current_num_threads())
             .map(|_| UnsafeCell::new(nucleo_matcher::Matcher::new(config.clone())))
             .collect();
         let worker = Worker {
